@@ -51,3 +51,8 @@ p["theorems"] += _LOOP_REFINE + [
 p = PROPS["C17"]
 p["modules"] += ["RrProofs.Props.C16Loop"]
 p["theorems"] += _LOOP_REFINE
+
+# C16 reads stream reload as well: which storages are in service after a reload, and which of them were told they are replaced
+# (a storage that stays in service but was marked replaced has no size limiter any more - seeded change C16-m8)
+PROPS["C16"]["streams"] += [S("reload", 480, 2400)]
+PROPS["C16"]["rule"] += " | reload (see C19): reload sequences through the real ParseStorageConfigs / SetStorageConfigs; the storages in service afterwards and their replaced flags are compared with the reload model"
